@@ -562,7 +562,12 @@ func runC12(r *core.Run) {
 	nset := 0
 	for i := 0; i < steps; i++ {
 		nm := len(w.msgs)
-		act := s.Weighted("action", []int{8, 8 * min1(nm), wf * min1(nm), wf * min1(nm), 3, wf * 2, wf})
+		wFailWrite, wRegroup := wf, 2
+		if faultNode >= 0 {
+			// runs with a failing disk spend more of their events on regrouped batches and failing writes
+			wFailWrite, wRegroup = 3*wf, 5
+		}
+		act := s.Weighted("action", []int{8, 8 * min1(nm), wf * min1(nm), wf * min1(nm), 3, wf * 2, wFailWrite, wRegroup * min1(nm-1)})
 		switch act {
 		case 0: // local Set
 			n := w.nodes[s.Choose("node", len(w.nodes))]
@@ -635,6 +640,32 @@ func runC12(r *core.Run) {
 			w.seq++
 			r.Fault("byzantine-value")
 			w.deliver(&msg{seq: w.seq, src: -1, dst: dst.idx, bytes: b, note: "[" + what + "]"})
+		case 7: // regrouping: two messages in flight to the same node arrive as one batch
+			a := w.msgs[s.Choose("merge-a", nm)]
+			var others []*msg
+			for _, m := range w.msgs {
+				if m != a && m.dst == a.dst {
+					others = append(others, m)
+				}
+			}
+			if len(others) == 0 {
+				continue
+			}
+			b := others[s.Choose("merge-b", len(others))]
+			ka, kb := &spacesyncproto.StoreKeyValues{}, &spacesyncproto.StoreKeyValues{}
+			must(ka.UnmarshalVT(a.bytes))
+			must(kb.UnmarshalVT(b.bytes))
+			ka.KeyValues = append(ka.KeyValues, kb.KeyValues...)
+			a.bytes, _ = ka.MarshalVT()
+			a.note = fmt.Sprintf("%d values (regrouped)", len(ka.KeyValues))
+			for j, m := range w.msgs {
+				if m == b {
+					w.msgs = append(w.msgs[:j], w.msgs[j+1:]...)
+					break
+				}
+			}
+			r.Fault("regroup")
+			r.Event("regroup", "#%d and #%d to N%d become one batch", a.seq, b.seq, a.dst)
 		case 6: // a failing write while applying a remote batch
 			var cand []*node
 			for _, n := range w.nodes {
@@ -656,7 +687,7 @@ func runC12(r *core.Run) {
 				continue
 			}
 			m := mine[s.Choose("fmsg", len(mine))]
-			n.plan.Calls, n.plan.FailAt, n.plan.Armed = nil, 1+s.Choose("fail-at", 5), true
+			n.plan.Calls, n.plan.FailAt, n.plan.Armed = nil, 1+s.Choose("fail-at", 7), true
 			kvs := &spacesyncproto.StoreKeyValues{}
 			must(kvs.UnmarshalVT(m.bytes))
 			err := n.store.SetRaw(ctxb, kvs.KeyValues...)
